@@ -176,6 +176,9 @@ class Theory:
     def call_ref(self, st, fr, f, pos, kws, rest_kw, node):
         self._no("call of an opaque object")
 
+    def call_builtin(self, st, fr, f, pos, kws, rest_kw, node):
+        self._no(f"builtin {f.name}()")
+
     def construct(self, st, fr, c, pos, kws, node):
         self._no(f"constructor {c.name}")
 
